@@ -50,7 +50,8 @@ from ..refs import c04_corpus as corpus
 PROPERTY = "C04"
 LEVEL = "fault_enumeration"
 
-WATCHDOG_S = 5.0
+WATCHDOG_S = 5.0        # CPU seconds (ITIMER_PROF): immune to machine load
+WATCHDOG_WALL_S = 120.0  # wall-clock backstop (ITIMER_REAL) for a call that blocks instead of spinning
 DNSDIR = os.path.dirname(os.path.abspath(dns.__file__)) + os.sep
 ORIGIN = dns.name.from_text("example.")
 
@@ -70,46 +71,107 @@ class Hang(BaseException):
     pass
 
 
-_hung = [False]
+_hung = [False, "?"]
 _handler_pid = [None]
+_samples = []  # stacks (dns frames, outermost first) seen at successive expiries
+N_SAMPLES = 3
+
+
+def _dns_stack(frame):
+    st = []
+    f = frame
+    while f is not None:
+        if f.f_code.co_filename.startswith(DNSDIR):
+            st.append(f)
+        f = f.f_back
+    st.reverse()
+    return st
 
 
 def _on_alarm(signum, frame):
+    """The first expiries only sample the stack (the timer re-fires every 0.5 s); the last
+    one raises.  The reported site is the innermost dns frame that stayed alive across all
+    samples, i.e. the function that contains the spinning loop - stable from run to run,
+    unlike the frame that happens to execute at the instant of the signal."""
     _hung[0] = True
+    st = _dns_stack(frame)
+    if signum == signal.SIGALRM:  # wall-clock backstop: no sampling
+        if not _samples:
+            _samples.append(st)
+        _hung[1] = _site()
+        del _samples[:]
+        raise Hang()
+    if not _samples:
+        _samples.append(st)
+    else:
+        common = []
+        for a, b in zip(_samples[0], st):
+            if a is not b:
+                break
+            common.append(a)
+        _samples[0] = common
+        _samples.append(None)
+    _hung[1] = _site()
+    if len(_samples) < N_SAMPLES:
+        return
+    del _samples[:]
     raise Hang()
+
+
+def _site():
+    common = _samples[0] if _samples else None
+    if not common:
+        return "?"
+    code = common[-1].f_code
+    return "%s.%s" % (code.co_filename[len(DNSDIR):].rsplit(".", 1)[0].replace(os.sep, "."),
+                      code.co_qualname.replace("<locals>.", ""))
 
 
 def _ensure_handler():
     if _handler_pid[0] != os.getpid():
         signal.signal(signal.SIGALRM, _on_alarm)
+        signal.signal(signal.SIGPROF, _on_alarm)
         _handler_pid[0] = os.getpid()
 
 
+def _arm():
+    signal.setitimer(signal.ITIMER_PROF, WATCHDOG_S, 0.5)
+    signal.setitimer(signal.ITIMER_REAL, WATCHDOG_WALL_S, 1.0)
+
+
+def _disarm():
+    signal.setitimer(signal.ITIMER_PROF, 0)
+    signal.setitimer(signal.ITIMER_REAL, 0)
+
+
 def attempt(fn):
-    """Run fn() under the watchdog.  -> ('ok', value) | ('exc', exception) | ('hang', None).
+    """Run fn() under the watchdog.  -> ('ok', value) | ('exc', exception) | ('hang', site).
     The flag covers wrappers that convert *any* exception (dns.exception.ExceptionWrapper
-    would turn the watchdog's own exception into a FormError); the timer re-fires every
-    second after the first expiry for the same reason."""
+    would turn the watchdog's own exception into a FormError); the timer keeps firing
+    after the first expiry for the same reason.  A call that returns after the first expiry
+    is a hang as well (slower than the watchdog)."""
     _ensure_handler()
     _hung[0] = False
+    _hung[1] = "?"
+    del _samples[:]
     try:
-        signal.setitimer(signal.ITIMER_REAL, WATCHDOG_S, 1.0)
+        _arm()
         try:
             v = fn()
         except Hang:
-            return "hang", None
+            return "hang", _hung[1]
         except Exception as e:  # noqa: BLE001 - classification is the whole point
             if _hung[0]:
-                return "hang", None
+                return "hang", _hung[1]
             return "exc", e
         finally:
-            signal.setitimer(signal.ITIMER_REAL, 0)
+            _disarm()
         if _hung[0]:
-            return "hang", None
+            return "hang", _hung[1]
         return "ok", v
     except Hang:
-        signal.setitimer(signal.ITIMER_REAL, 0)
-        return "hang", None
+        _disarm()
+        return "hang", _hung[1]
 
 
 # ---------------------------------------------------------------- exception classification
@@ -245,7 +307,7 @@ def render(entry, probs, what, **calls):
     for stage, fn in calls.items():
         st, v = attempt(fn)
         if st == "hang":
-            probs.append(("C04/%s.%s/hang" % (entry, stage), "%s: rendering did not finish in %gs" % (what, WATCHDOG_S)))
+            probs.append(("C04/%s.%s/hang@%s" % (entry, stage, v), "%s: rendering did not finish in %g CPU-seconds" % (what, WATCHDOG_S)))
         elif st == "exc" and not is_lib(v):
             probs.append((crash("%s.%s" % (entry, stage), v), "%s: accepted, then %s raises %s" % (what, stage, describe(v))))
 
@@ -279,7 +341,7 @@ def do_msg_wire(wire, mask, kr="none", mac=b""):
         len(wire), "+".join(n for i, n in enumerate(OPT_BITS) if mask >> i & 1) or "default", kr)
     probs = []
     if st == "hang":
-        return "hang", [("C04/msg-wire/hang", what + " did not finish in %gs" % WATCHDOG_S)]
+        return "hang", [("C04/msg-wire/hang@%s" % v, what + " did not finish in %g CPU-seconds" % WATCHDOG_S)]
     if st == "exc":
         e = v
         if not ok_msg_wire(e, keyring is not None, trunc):
@@ -314,7 +376,7 @@ def do_name_wire(wire, current):
     st, v = attempt(lambda: dns.name.from_wire(wire, current))
     what = "dns.name.from_wire(%s, %d)" % (wire.hex(), current)
     if st == "hang":
-        return "hang", [("C04/name-wire/hang", what)]
+        return "hang", [("C04/name-wire/hang@%s" % v, what + " did not finish in %g CPU-seconds" % WATCHDOG_S)]
     if st == "exc":
         if not ok_formerror(v):
             return exc_name(v), [(crash("name-wire", v), what + " raises " + describe(v))]
@@ -334,7 +396,7 @@ def do_rdata_wire(cls, typ, data, with_origin):
     st, v = attempt(lambda: dns.rdata.from_wire(cls, typ, wire, len(RD_PREFIX), len(data), origin))
     what = "dns.rdata.from_wire(%s, %s, %s%s)" % (cls, typ, data.hex(), ", origin" if with_origin else "")
     if st == "hang":
-        return "hang", [("C04/rdata-wire/hang", what)]
+        return "hang", [("C04/rdata-wire/hang@%s" % v, what + " did not finish in %g CPU-seconds" % WATCHDOG_S)]
     if st == "exc":
         if not ok_formerror(v):
             return exc_name(v), [(crash("rdata-wire", v), what + " raises " + describe(v))]
@@ -367,7 +429,7 @@ def do_name_text(text, origin, codec):
     st, v = attempt(lambda: dns.name.from_text(text, org, codec_of(codec)))
     what = "dns.name.from_text(%r, origin=%s, idna=%s)" % (text, origin, codec)
     if st == "hang":
-        return "hang", [("C04/name-text/hang", what)]
+        return "hang", [("C04/name-text/hang@%s" % v, what + " did not finish in %g CPU-seconds" % WATCHDOG_S)]
     if st == "exc":
         if not ok_name_text(v):
             return exc_name(v), [(crash("name-text", v), what + " raises " + describe(v))]
@@ -381,7 +443,7 @@ def do_ttl_text(text):
     st, v = attempt(lambda: dns.ttl.from_text(text))
     what = "dns.ttl.from_text(%r)" % (text,)
     if st == "hang":
-        return "hang", [("C04/ttl-text/hang", what)]
+        return "hang", [("C04/ttl-text/hang@%s" % v, what + " did not finish in %g CPU-seconds" % WATCHDOG_S)]
     if st == "exc":
         if not ok_syntax(v):
             return exc_name(v), [(crash("ttl-text", v), what + " raises " + describe(v))]
@@ -400,7 +462,7 @@ def do_rdata_text(cls, typ, text, opt):
     st, v = attempt(lambda: dns.rdata.from_text(cls, typ, text, origin=origin, relativize=relativize))
     what = "dns.rdata.from_text(%s, %s, %r, %s)" % (cls, typ, text, opt)
     if st == "hang":
-        return "hang", [("C04/rdata-text/hang", what)]
+        return "hang", [("C04/rdata-text/hang@%s" % v, what + " did not finish in %g CPU-seconds" % WATCHDOG_S)]
     if st == "exc":
         if not ok_syntax(v):
             return exc_name(v), [(crash("rdata-text", v), what + " raises " + describe(v))]
@@ -462,7 +524,7 @@ def do_zone_text(text, origin, zopt):
     what = "dns.zone.from_text(%r, origin=%s, relativize=%s, check_origin=%s, allow_include=%s, %s, directives=%s)" % (
         text, origin if give_origin else None, rel, chk, inc, fac, directives)
     if st == "hang":
-        return "hang", [("C04/zone-text/hang", what)]
+        return "hang", [("C04/zone-text/hang@%s" % v, what + " did not finish in %g CPU-seconds" % WATCHDOG_S)]
     if st == "exc":
         p = zone_exc_problem(v, inc and directives == "all")
         if p == "no-file-line":
@@ -486,7 +548,7 @@ def do_rrsets_text(text, kw):
     st, v = attempt(lambda: dns.zonefile.read_rrsets(text, **kw))
     what = "dns.zonefile.read_rrsets(%r, %s)" % (text, ", ".join("%s=%r" % kv for kv in sorted(kw.items())))
     if st == "hang":
-        return "hang", [("C04/rrsets-text/hang", what)]
+        return "hang", [("C04/rrsets-text/hang@%s" % v, what + " did not finish in %g CPU-seconds" % WATCHDOG_S)]
     if st == "exc":
         p = zone_exc_problem(v, False)
         if p == "no-file-line":
@@ -513,7 +575,7 @@ def do_msg_text(text, mopt):
     what = "dns.message.from_text(%r, origin=%s, one_rr_per_rrset=%s, relativize=%s)" % (
         text, "example." if give_origin else None, one, rel)
     if st == "hang":
-        return "hang", [("C04/msg-text/hang", what)]
+        return "hang", [("C04/msg-text/hang@%s" % v, what + " did not finish in %g CPU-seconds" % WATCHDOG_S)]
     if st == "exc":
         if not is_lib(v):
             return exc_name(v), [(crash("msg-text", v), what + " raises " + describe(v))]
@@ -556,6 +618,13 @@ _ENTRY_LABEL = {"mw": "msg-wire", "nw": "name-wire", "rw": "rdata-wire", "nt": "
                 "rt": "rdata-text", "zt": "zone-text", "rr": "rrsets-text", "mt": "msg-text"}
 
 
+HANG_LIMIT = 8
+
+
+class ShardAbort(Exception):
+    pass
+
+
 def judge(col, case, base, kind):
     """Execute one case and book it."""
     label, probs = run_case(case)
@@ -571,6 +640,10 @@ def judge(col, case, base, kind):
     col.nontrivial((entry, base, kind, label))
     for sig, what in probs:
         col.violation(sig, what, case)
+    if label == "hang":
+        col.count("hangs")
+        if col.counts["hangs"] > HANG_LIMIT:
+            raise ShardAbort()
     return label
 
 
@@ -795,7 +868,7 @@ def shard_msg(task, col):
         m_trunc = list(range(128))
         m_byte = list(range(128)) if structural else masks_upto(2)
         m_sec = masks_upto(1)
-        m_dbl = masks_upto(1)
+        m_dbl = [0, B_COE, ALL_MASK]
 
     def go(w, masks, secondary, fault):
         for kr, ms in _mw_variants(meta, masks, secondary):
@@ -923,10 +996,20 @@ def shard_rdata_text(task, col):
     for opt in opts:
         judge(col, {"e": "rt", "cls": cls, "typ": typ, "text": text, "opt": opt}, base, "valid")
     toks = _TOKEN_RE.findall(text)
-    for kind, nt in token_faults(toks, TOKEN_REPL, double):
+    hangs = col.counts.get("hangs", 0)
+    for kind, nt in token_faults(toks, TOKEN_REPL, False):
         t = " ".join(nt)
         for opt in opts:
             judge(col, {"e": "rt", "cls": cls, "typ": typ, "text": t, "opt": opt}, base, kind)
+    if double and col.counts.get("hangs", 0) > hangs:
+        col.cap("double token faults of %s skipped: a single token fault already hangs" % base)
+        double = False
+    if double:
+        for kind, nt in token_faults(toks, TOKEN_REPL, True):
+            if kind == "tok-repl2":
+                t = " ".join(nt)
+                for opt in opts:
+                    judge(col, {"e": "rt", "cls": cls, "typ": typ, "text": t, "opt": opt}, base, kind)
     for kind, t in char_faults(text, chars, insert):
         judge(col, {"e": "rt", "cls": cls, "typ": typ, "text": t, "opt": "org"}, base, kind)
     for t in ["", " ", "(", ")", "( )", '"', "\\", "\\# ", "\\# 1", "\\# x", "\\# 1 0", "\\# 65536 00", "\\# 1 zz",
@@ -962,7 +1045,8 @@ def zone_opts_for(quick):
     if quick:
         return {"valid": zone_opts(6), "line": zone_opts(1), "no": zone_opts(1), "tok": ZTOK_OPTS_Q, "chr": [ZOPT_DEFAULT]}
     z2 = zone_opts(2)
-    return {"valid": zone_opts(6), "line": z2, "no": z2, "tok": z2, "chr": zone_opts(1)}
+    return {"valid": zone_opts(6), "line": z2, "no": z2, "tok": z2,
+            "chr": ZTOK_OPTS_Q + [(True, True, True, "zone", False, "all"), (True, False, False, "zone", True, "ttl-only")]}
 
 
 def shard_zone_text(task, col):
@@ -1018,7 +1102,16 @@ _SHARDS = {"hdr": shard_header, "msg": shard_msg, "nw": shard_name_wire, "rw": s
 
 
 def worker(task, col):
-    _SHARDS[task[0]](task, col)
+    import time
+    t0 = time.process_time()
+    try:
+        try:
+            _SHARDS[task[0]](task, col)
+        finally:
+            col.count("cpu_ms:" + task[0], int((time.process_time() - t0) * 1000))
+    except ShardAbort:
+        col.cap("shard %r abandoned after %d watchdog expiries (each costs %gs)" % (
+            tuple(str(x)[:40] for x in task[:4]), HANG_LIMIT + 1, WATCHDOG_S))
 
 
 # ---------------------------------------------------------------- run
@@ -1033,7 +1126,9 @@ def run(ctx):
         "body-octet double faults of a corpus of valid inputs built with the library.  A case is counted as a "
         "distinct non-trivial case per (entry point, base input, fault kind, outcome class); `evaluations` "
         "counts every executed case.")
-    ctx.assume("watchdog %gs per call: a hang is anything slower than that (inputs are < 1 KiB)" % WATCHDOG_S)
+    ctx.assume("watchdog: %g CPU-seconds per call (ITIMER_PROF, so machine load cannot fake a hang) plus a %g s "
+               "wall-clock backstop for a blocking call; a hang is anything slower (inputs are < 1 KiB)"
+               % (WATCHDOG_S, WATCHDOG_WALL_S))
     ctx.assume("$INCLUDE targets live in a scratch directory; an OSError from opening an include file is "
                "environment, not parsing, and is accepted only when $INCLUDE is allowed")
     ctx.assume("$GENERATE ranges in the corpus are <= 16 steps; unbounded shifts such as 'flags FLAG<10^11>' in "
@@ -1052,7 +1147,7 @@ def run(ctx):
         return not only or k in only
 
     # --- message wire: header x body
-    hb = ctx.pick(3, 5)
+    hb = ctx.pick(3, 4)
     bounds["header_body_maxlen"] = hb
     bounds["header_vectors"] = len(HEADER_COUNTS) * len(HEADER_FLAGS)
     if want("hdr"):
@@ -1067,7 +1162,7 @@ def run(ctx):
         "truncate": ctx.pick(len(masks_upto(1)), 128),
         "byte_structural": ctx.pick(len(QUICK_BYTE_MASKS), 128),
         "byte_per_type": ctx.pick(2, len(masks_upto(2))),
-        "double": ctx.pick(2, len(masks_upto(1))),
+        "double": ctx.pick(2, 3),
         "tsig_keyrings": ["keys (primary vectors)", "bytes", "none", "false"],
     }
     if want("msg"):
